@@ -133,6 +133,9 @@ class VECTOR_BLF_EXPORT UncompressedFile final : public AbstractFile {
     /** buffer size */
     std::streamsize m_bufferSize {std::numeric_limits<std::streamsize>::max()};
 
+    /** end position of the read request that is waiting for data (0 if none): a writer is admitted up to there regardless of the buffer size */
+    std::streamsize m_requestedEnd {};
+
     /** error state */
     std::ios_base::iostate m_rdstate {std::ios_base::goodbit};
 
